@@ -39,7 +39,7 @@ def leaf_law(o):
         if k == 'datetime':
             s = o.isoformat()
             r = datetime.datetime.fromisoformat(s)
-            return 'Z' not in s and r == o and r.tzinfo == o.tzinfo and r.isoformat() == s
+            return 'Z' not in s and r == o and r.utcoffset() == o.utcoffset() and r.isoformat() == s
         if k == 'time':
             s = o.isoformat()
             r = datetime.time.fromisoformat(s)
@@ -78,6 +78,7 @@ def run_case(c):
         cls = rt.build_type(c['root'], reg)
         meta = {}
         if c['cfg'].get('xf'): meta['key_transform_with_dump'] = c['cfg']['xf']
+        if c['cfg'].get('auto_tags'): meta['auto_assign_tags'] = True
         rt.bind_meta(cls, meta)
         x = rt.build_value(c['value'], reg)
         out['coq_t'] = rt.coq_ty(c['root'], reg)
@@ -93,6 +94,12 @@ def run_case(c):
     out['leaf_bad'] = sorted({rt.tok_kind(t) for t in toks if not leaf_law(t)})
     bases = c['root'].get('bases', [])
     res = {}
+    # history: nested dataclass instances are dumped on their own BEFORE the first dump of the owner
+    if c.get('pre_dump'):
+        for m in rt.nested_instances(x):
+            r0 = attempt(lambda: asdict(m))
+            if 'err' in r0:
+                out['pre_dump_err'] = r0
     # 1. dict round trip ---------------------------------------------------------------
     d = attempt(lambda: asdict(x))
     if 'err' in d:
